@@ -329,9 +329,16 @@ def check_primitives(prog):
             probs.append(Problem("L1", "encodeLength", "continuation-test", "the continuation bit is set when value %s %s; it must be set exactly when digits remain (value > 0)" % (op, c), node))
         if kind == "exit" and not nomore(op, c):
             probs.append(Problem("L1", "encodeLength", "exit-test", "the loop ends when value %s %s; it must end exactly when no digits remain (value <= 0)" % (op, c), node))
-        if kind == "loop" and not more(op, c):
-            probs.append(Problem("L1", "encodeLength", "exit-test", "the loop continues while value %s %s; it must continue exactly while digits remain" % (op, c), node))
-    if not any(k == "cont" for k, *_ in conds) and not no_cont:
+        if kind == "loop":
+            # two accepted shapes: the test looks at the value after the division (digits remain: value > 0), or before it
+            # (another digit is needed: value > 127)
+            pre_div = isinstance(c, int) and c >= 64
+            ok_loop = ((op == "Gt" and c == 127) or (op == "GtE" and c == 128)) if pre_div else more(op, c)
+            if not ok_loop:
+                probs.append(Problem("L1", "encodeLength", "exit-test", "the digit loop continues while value %s %s; it must continue exactly while "
+                                     "another digit is needed (value > 127 before the division, value > 0 after it): a quotient of exactly 128 is "
+                                     "written as a lone continuation byte" % ({"Gt": ">", "GtE": ">=", "NotEq": "!="}.get(op, op), c), node))
+    if not any(k in ("cont", "loop") for k, *_ in conds) and not no_cont:
         raise AnalysisError("encodeLength: continuation test not recognisable")
     r = Roles(prog, mod, mod.funcs["decodeLength"])
     masks = sorted({v for v, n in r.consts(ast.BitAnd)})
